@@ -99,7 +99,7 @@ def run_sem(prop, tier, v, families=None, opts=None, replay_cases=None, want=("s
     t0 = time.time()
     ropts = list(opts or [])
     extra = []
-    if "vm" in want or "compile" in want:
+    if "vm" in want or "compile" in want or "ir" in want or "optmc" in want:
         ropts += ["--progs"]
         extra.append(("--vm-out", "vm"))
     if "api" in want:
@@ -187,6 +187,60 @@ def run_sem(prop, tier, v, families=None, opts=None, replay_cases=None, want=("s
             R["compile_judged"] = sum(1 for j in cs if j["judged"])
             C.log("judge (emitter skeleton, Compile.tla): %d programs in %.1fs" % (R["compile_judged"], time.time() - t0))
         machine_layer("Compile", _compile)
+    if "ir" in want:
+        def _ir():
+            # the IR recorded after parsing and after every optimizer pass, judged with IRSem.tla against ESSem.tla
+            # (parser lowering) and stage against stage (optimizer), and compared with the run of OptPasses.tla
+            t0 = time.time()
+            env = {"MAXHAYS": 20 if (tier == "quick" and replay_cases is None) else 100000}
+            results, njudged = judge_sharded("JudgeIR", "JudgeIR.cfg", paths["vm"], work, "ir", parts=parts, env=env)
+            absorb(results)
+            st = [j for j in R["jlines"] if j["kind"] == "irstat"]
+            R["ir_judged"] = sum(1 for j in st if j["judged"])
+            R["ir_stages"] = sum(j["stages"] for j in st)
+            R["ir_evals"] = sum(j["evals"] * j["stages"] for j in st)
+            R["opt_trace_mismatches"] = sum(1 for j in R["jlines"] if j["kind"] == "opttrace")
+            for kd, key, text in (("predtrace", "start_pred_trace_differences", "dumped start predicate(s) differ from StartPred.tla's derivation from the same tree"),
+                                  ("emittrace", "emitter_trace_differences", "dumped program(s) differ from Emit.tla's emission of the same tree"),
+                                  ("predspec", "start_pred_spec_unsound", "tree(s) match (IRSem.tla) at an offset the predicate derived by StartPred.tla rejects")):
+                js = [j for j in R["jlines"] if j["kind"] == kd]
+                R[key] = len(js)
+                if js:
+                    v.note("%d %s (first: %s); a diagnostic - the verdict rests on what the trees and the programs match" % (
+                        len(js), text, json.dumps(js[0])[:400]))
+            ot = [j for j in R["jlines"] if j["kind"] == "opttrace"]
+            if ot:
+                v.note("%d recorded optimizer run(s) differ from the run of OptPasses.tla from the same parsed tree (first: pattern record %s, "
+                       "stage %s: specification %s, recorded %s); a diagnostic - the verdict rests on what the trees and the programs match" % (
+                           len(ot), ot[0]["id"], ot[0]["stage"], ot[0]["exp"].get("pass"), ot[0]["got"].get("pass")))
+            C.log("judge (IR stages: IRSem / OptPasses / StartPred / Emit): %d trees of %d patterns in %.1fs, %d optimizer-trace differences" % (
+                R["ir_stages"], R["ir_judged"], time.time() - t0, R["opt_trace_mismatches"]))
+        machine_layer("JudgeIR", _ir)
+    if "optmc" in want:
+        def _optmc():
+            # Optimizer.tla model-checked from a sample of the parsed trees: every state of the specification's
+            # optimizer keeps the meaning of the parsed tree, is well formed, the run ends, and its last tree is the
+            # one the real optimizer ended with; once as the code runs (one round) and once as intended (rounds repeat)
+            t0 = time.time()
+            nsp = 300 if tier == "quick" else 6000
+            total = sum(1 for _ in open(paths["vm"]))
+            every = max(1, total // nsp)
+            spf = paths["vm"] + ".optmc"
+            sample_file(paths["vm"], every, spf)
+            R["optmc"] = {}
+            for cfg in ("MCOptimizer.cfg", "MCOptimizer_intended.cfg"):
+                res = C.tlc("MCOptimizer", cfg, env={"OBS": spf, "MAXHAYS": 8 if tier == "quick" else 40}, workers=8, xmx="6g",
+                            timeout=3000, workdir=work, allow_violation=True)
+                inv = res.violated_invariant()
+                R["optmc"][cfg] = {"states": res.distinct, "transitions": res.generated, "violated": inv}
+                R["states"] += res.distinct
+                R["generated"] += res.generated
+                if inv:
+                    v.note("Optimizer.tla (%s) from the recorded parsed trees: %s violated - the specification's optimizer and the "
+                           "recorded trees disagree; the verdict rests on the recorded stages (JudgeIR) and the matches" % (cfg, inv))
+            C.log("Optimizer.tla model-checked from %d parsed trees: %s in %.1fs" % (
+                min(total, nsp), json.dumps(R["optmc"]), time.time() - t0))
+        machine_layer("MCOptimizer", _optmc)
     if "space" in want:
         def _space():
             # model checking with the machines' real Next relation: every state of every run of a sample of the
@@ -305,6 +359,23 @@ def classify(prop, R, v, kinds_sem=(), pairs=(), use_bad=False, use_fails=None):
             R["emit_mismatches"] = R.get("emit_mismatches", 0) + 1
             if R["emit_mismatches"] <= 3:
                 v.note(what)
+        elif kd in ("irparse", "irpass"):
+            if kd == "irparse" and j.get("dev") and j["dev"][0] in kf:
+                f = kf[j["dev"][0]]
+                v.known_finding(f["id"], f["what"])
+                continue
+            r = rec(j["id"])
+            if kd == "irparse":
+                what = "the parsed tree (IR) of /%s/%s does not mean what the pattern means: anchored attempt at %d of %s: pattern %s, tree %s" % (
+                    r.get("pats"), r.get("flags"), j["s"], r["hays"][j["h"]], j["exp"], j["got"])
+            else:
+                what = "optimizer pass %s changed the meaning of the tree of /%s/%s: anchored attempt at %d of %s: before %s, after %s" % (
+                    j["pass"], r.get("pats"), r.get("flags"), j["s"], r["hays"][j["h"]], j["exp"], j["got"])
+            v.violation(what, {"pipeline": "sem", "case": S.small_case(r, j["h"]), "kind": kd, "detail": j})
+        elif kd == "irwf":
+            r = rec(j["id"])
+            what = "the tree (IR) of /%s/%s after %s is not well formed: %s" % (r.get("pats"), r.get("flags"), j["pass"], "; ".join(j["what"]))
+            v.violation(what, {"pipeline": "sem", "case": S.small_case(r), "kind": kd, "detail": j})
         elif kd == "pred":
             r = rec(j["id"])
             what = "start predicate %s of the %s program of /%s/%s rejects byte offset %d of %s where an anchored attempt succeeds" % (
@@ -386,7 +457,7 @@ def classify(prop, R, v, kinds_sem=(), pairs=(), use_bad=False, use_fails=None):
 
 
 def coverage(R, samples, rule):
-    evals = sum(s["evals"] for s in R["stats"]) + R.get("api_matches", 0) + R.get("cost_runs", 0) + R.get("vm_runs", 0) + R.get("traces_validated", 0)
+    evals = sum(s["evals"] for s in R["stats"]) + R.get("ir_evals", 0) + R.get("api_matches", 0) + R.get("cost_runs", 0) + R.get("vm_runs", 0) + R.get("traces_validated", 0)
     nontriv = sum(s["nontrivial"] for s in R["stats"])
     if not R["stats"]:
         nontriv = len([j for j in R["jlines"] if j["kind"] in ("coststat", "vmstat") and j.get("runs", 0) > 0])
@@ -395,6 +466,10 @@ def coverage(R, samples, rule):
         "traces_validated_against_impl": R.get("traces_validated", 0),
         "trace_states": R.get("trace_states", 0), "machine_runs_on_dumped_bytecode": R.get("vm_runs", 0),
         "emitter_skeletons_judged": R.get("compile_judged", 0), "emitter_skeleton_mismatches": R.get("emit_mismatches", 0),
+        "ir_trees_judged": R.get("ir_stages", 0), "ir_patterns_judged": R.get("ir_judged", 0),
+        "optimizer_trace_differences": R.get("opt_trace_mismatches", 0), "optimizer_model": R.get("optmc", {}),
+        "start_pred_trace_differences": R.get("start_pred_trace_differences", 0),
+        "emitter_trace_differences": R.get("emitter_trace_differences", 0),
         "machine_state_space_states": R.get("space_states", 0), "machine_state_space_programs": R.get("space_programs", 0),
         "evaluations": evals, "distinct_nontrivial": nontriv,
         "programs": R["ncases"], "families": R["counts"],
